@@ -68,6 +68,10 @@ class Support(object):
             return f
         return apply
 
+    def plain(self, f):
+        self.log.append(('deco', 100))
+        return f
+
 
 # =========================================================================================
 # generator of specs -> module source
@@ -95,13 +99,16 @@ def gen_spec(r, idx):
     names = r.sample(CLOSURE_POOL, nv)
     modes = ['read', 'read', 'write', 'inner', 'cond_write', 'nonlocal_only', 'loop_write']
     if kind == 'lambda':
-        modes = ['read', 'inner']
+        # a second lambda on the line makes malt match lambdas by argument names, which never succeeds for
+        # positional-only parameters (parser._node_matches_argspec ignores posonlyargs: a C15 matter)
+        modes = ['read', 'inner'] if not spec['sig']['posonly'] else ['read']
     spec['closure'] = [(n, r.choice(modes)) for n in names]
     spec['empty'] = [n for n, m in spec['closure'] if m in ('read', 'inner') and r.random() < 0.08]
     spec['instances'] = 3 if (kind == 'nested' and r.random() < 0.25) else 1
     spec['default_kind'] = [r.choice(['tag', 'tag', 'local', 'mutable', 'const']) for _ in range(12)]
     spec['bound'] = r.random() < 0.6
     spec['ndeco'] = r.choice([1, 1, 2]) if kind == 'decorated' else 0
+    spec['plain_deco'] = r.random() < 0.5
     spec['cleared'] = None
     spec['order'] = r.random()
     spec['uses_global'] = r.random() < 0.7
@@ -192,12 +199,17 @@ def render(spec):
     body.append('return ' + ret)
 
     decos = list(range(1, spec['ndeco'] + 1))
+    if decos and spec.get('plain_deco'):
+        decos = [100] * len(decos)
+
+    def deco_line(i):
+        return '@_plain' if i == 100 else '@_deco(%d)' % i
     L = []
     L.append('G = 41')
     kind = spec['kind']
     if kind == 'toplevel':
         for i in decos:
-            L.append('@_deco(%d)' % i)
+            L.append(deco_line(i))
         L.append('def f(%s):' % plist)
         L.extend('    ' + b for b in body)
         L.append('def mk(base):')
@@ -210,7 +222,7 @@ def render(spec):
             L.append('    %s = base + %d' % (n, (k + 1) * 1000))
         L.append('    unused_local = 5')
         if kind == 'lambda':
-            ret_l = ret if not inner_reads else ret.replace('_inner()', '(lambda: (%s,))()' % ', '.join(inner_reads))
+            ret_l = ret if not inner_reads else ret.replace('_inner()', '(lambda _z=0: (%s,))()' % ', '.join(inner_reads))
             L.append('    f = lambda %s: %s' % (plist, ret_l))
         elif kind == 'method':
             L.append('    class C(object):')
@@ -219,7 +231,7 @@ def render(spec):
             L.append('    f = C().f' if spec['bound'] else '    f = C.f')
         else:
             for i in decos:
-                L.append('    @_deco(%d)' % i)
+                L.append('    ' + deco_line(i))
             L.append('    def f(%s):' % plist)
             L.extend('        ' + b for b in body)
         L.append('    def get_all():')
@@ -361,6 +373,7 @@ class Loaded(object):
         self.ns = mod.__dict__
         self.ns['_d'] = self.support.d
         self.ns['_deco'] = self.support.deco
+        self.ns['_plain'] = self.support.plain
         exec(compile(src, self.path, 'exec'), self.ns)
 
     def close(self):
@@ -385,8 +398,12 @@ def find_def(src, target):
             first = min([n.lineno] + [d.lineno for d in n.decorator_list])
             if first == line or n.lineno == line:
                 best = n
-        if isinstance(n, ast.Lambda) and fn.__code__.co_name == '<lambda>' and n.lineno == line:
-            best = n
+        if isinstance(n, ast.Lambda) and fn.__code__.co_name == '<lambda>' and n.lineno == line and best is None:
+            a = n.args
+            names = [x.arg for x in a.posonlyargs + a.args + a.kwonlyargs]
+            c = fn.__code__
+            if names == list(c.co_varnames[:c.co_argcount + c.co_kwonlyargcount]):
+                best = n
     return best
 
 
@@ -394,7 +411,7 @@ def dexpr_of(e, user_ids):
     """classify a default expression of a parameter list"""
     if isinstance(e, ast.Constant) and e.value is None:
         return 'DNone'
-    if isinstance(e, ast.Constant):
+    if isinstance(e, ast.Constant) or (isinstance(e, ast.Tuple) and not e.elts):
         return 'DConst'
     if isinstance(e, ast.Call) and isinstance(e.func, ast.Name) and e.func.id == '_d' and e.args \
             and isinstance(e.args[0], ast.Constant):
@@ -489,6 +506,8 @@ class Hooks(object):
                     for d in fn.decorator_list:
                         if isinstance(d, ast.Call) and isinstance(d.func, ast.Name) and d.func.id == '_deco':
                             ids.append(d.args[0].value)
+                        elif isinstance(d, ast.Name) and d.id == '_plain':
+                            ids.append(100)
                         elif ast.unparse(d) == 'ag__.autograph_artifact':
                             ids.append(0)
                         else:
@@ -596,6 +615,8 @@ def value_term(obj, ids):
         return 'VNone'
     if isinstance(obj, Tag):
         return 'VEval %d' % obj.j
+    if isinstance(obj, (int, float, str, bytes, tuple, frozenset, type(Ellipsis))):
+        return 'VConst'
     return 'VEval 999'
 
 
@@ -836,8 +857,8 @@ def oracle(r, loaded, o, get_all, set_var, decos, calls_budget=3):
         snap = snapshot(cells)
         gsnap = dict((g, fn.__globals__[g]) for g in gkeys)
 
-        def restore(cells_, snap_, _r=restore):
-            _r(cells_, snap_)
+        def restore_all(cells_, snap_):
+            restore(cells_, snap_)
             fn.__globals__.update(gsnap)
         try:
             for j, n in enumerate(fn.__code__.co_freevars):
@@ -845,7 +866,7 @@ def oracle(r, loaded, o, get_all, set_var, decos, calls_budget=3):
                     continue
                 set_var(n, 7000 + j)                    # original side rebinding
             seen = run_call(cf, pre + a, k)
-            restore(cells, snap)
+            restore_all(cells, snap)
             for j, n in enumerate(fn.__code__.co_freevars):
                 if n == '__class__':
                     continue
@@ -854,17 +875,17 @@ def oracle(r, loaded, o, get_all, set_var, decos, calls_budget=3):
             if not outcomes_equal(seen, seen0):
                 fails.append(('rebinding', 'after rebinding in the defining scope: original %r converted %r' % (seen0, seen)))
             # converted side rebinding (nonlocal writes in the body), observed by the sibling reader
-            restore(cells, snap)
+            restore_all(cells, snap)
             run_call(call, a, k)
             want = get_all()
-            restore(cells, snap)
+            restore_all(cells, snap)
             run_call(cf, pre + a, k)
             got = get_all()
             if want != got:
                 fails.append(('rebinding', 'writes of the converted function are not seen by the sibling closure: '
                               'expected %r got %r' % (want, got)))
         finally:
-            restore(cells, snap)
+            restore_all(cells, snap)
     return fails
 
 
@@ -913,9 +934,11 @@ def is_cleared_defaults_finding(case):
     if not all(k in allowed for k, _ in fails):
         return False
     cf = case['cf']
-    if cleared_pos and not all(x is None for x in (cf.__defaults__ or ())):
+    def placeholder(x):
+        return x is None or (isinstance(x, (int, str, bytes, tuple, float)) and not x) or x is Ellipsis
+    if cleared_pos and not all(placeholder(x) for x in (cf.__defaults__ or ())):
         return False
-    if cleared_kw and not all(x is None for x in (cf.__kwdefaults__ or {}).values()):
+    if cleared_kw and not all(placeholder(x) for x in (cf.__kwdefaults__ or {}).values()):
         return False
     if not cleared_pos and fn.__defaults__ is not cf.__defaults__ and (fn.__defaults__ or cf.__defaults__):
         return False
@@ -1052,9 +1075,15 @@ def _check(run, tmp):
         for name, src in OUT_OF_GUARANTEE:
             loaded = Loaded(tmp, textwrap.dedent(src).lstrip(), 'x')
             target, get_all, set_var = loaded.ns['mk'](0)
-            o = convert_and_observe(hooks, loaded, target, None)
+            node = find_def(loaded.src, target)
+            o = convert_and_observe(hooks, loaded, target, node)
             loaded.close()
             run.count()
+            term = build_case(len(case_info) + len(out_of_guarantee), loaded, o, node, [])
+            if isinstance(term, str):
+                cases.append(term)
+                case_info[len(case_info) + len(out_of_guarantee)] = {
+                    'spec': {'kind': 'out-of-guarantee:' + name, 'cleared': None}, 'src': loaded.src}
             if o.cf is None:
                 out_of_guarantee.append('%s: %s' % (name, (o.error or '')[:120]))
             else:
